@@ -514,7 +514,12 @@ class VizierServicer(vizier_service_pb2_grpc.VizierServiceServicer):
       context: Optional[grpc.ServicerContext] = None,
   ) -> Optional[study_pb2.Trial]:
     """Gets a Trial."""
-    return self.datastore.get_trial(request.name)
+    try:
+      return self.datastore.get_trial(request.name)
+    except custom_errors.NotFoundError as e:
+      if context is None:
+        raise  # In-process callers get the NotFoundError (a KeyError) itself.
+      grpc_util.handle_exception(e, context)  # NOT_FOUND instead of UNKNOWN.
 
   def ListTrials(
       self,
